@@ -65,7 +65,7 @@ func runC13(res *vh.Result) {
 			"DROP|FORW or FORW|BUFF combinations, re-creating a removed PDR id inside one session, notifications for a SEID after it was re-issued",
 		"queue capacity is learned from the first overflow and only required to be equal for all queues",
 	}
-	ncases := vh.Tiered(1000, 15000)
+	ncases := vh.Tiered(1000, 60000)
 	res.Cases(ncases, func(ci int, rng *vh.Rng) {
 		fs, err := vh.StartFull(vh.FullOpts{SMFs: 3, GNBs: 2}) // SMF 2 is never associated: the take-over target
 		if err != nil {
